@@ -36,9 +36,11 @@ def run(chk, tier, overlays=()):
     complete(chk, P)
     agree(chk, P)
     level(chk, P)
+    operator(chk, P)
     chk.floor("COMPLETE", 20)
     chk.floor("AGREE", 10)
     chk.floor("LEVEL", 14)
+    chk.floor("OPERATOR", 20)
     chk.assumptions += ["that verr is the time derivative of perr, Pq = dperr/dq, bias terms, signs and magnitudes are numerical and not decided"]
 
 
@@ -156,10 +158,145 @@ def level(chk, P):
     chk.shape(n == 7, "LEVEL", "seven-builders", "", "constraint matrix builders found: %d" % n)
 
 
+# G*u operator: error routine of each level -> (segment it fills, the counts that precede that segment in the stacked [P;V;A] vector)
+OPERATOR = {
+    "calcPositionDotErrors": ("holoErrSegment", []),
+    "calcVelocityDotErrors": ("nonholoErrSegment", ["totalNHolonomicConstraintEquationsInUse"]),
+    "calcAccelerationErrors": ("accOnlyErrSegment", ["totalNHolonomicConstraintEquationsInUse", "totalNNonholonomicConstraintEquationsInUse"]),
+}
+
+
+def _fields_through_locals(f, x, at_ev, depth=3):
+    """short names of the member fields an expression depends on, following single reaching initialisers of locals"""
+    out = set()
+    if not isinstance(x, list) or depth < 0:
+        return out
+    for y in sx_find(x, lambda y: y[0] == "mem"):
+        out.add(y[2].split("::")[-1])
+    for y in sx_find(x, lambda y: y[0] == "var"):
+        ds = [(b, i, d) for b, i, d in f.events(lambda q: q["k"] == "decl" and q["var"] == y[1] and q.get("init") is not None)]
+        live = [d for b, i, d in ds if f.path_exists((b, i), lambda q: q is at_ev, lambda q: any(q is o[2] for o in ds if o[2] is not d), lift=0) is not None]
+        if len(live) == 1:
+            out |= _fields_through_locals(f, live[0]["init"], live[0], depth - 1)
+    return out
+
+
+def _blocks_path(f, b0, goals, avoid_blocks):
+    """block path from the successors of b0 to any block in `goals` that never enters a block of avoid_blocks, or None"""
+    infeas = f.infeasible_edges()
+    seen, st = set(), [(s_, (b0, s_)) for s_ in f.succs(b0) if (b0, s_) not in infeas]
+    while st:
+        b, path = st.pop()
+        if b in seen or b in avoid_blocks:
+            continue
+        seen.add(b)
+        if b in goals:
+            return list(path)
+        if any(e["k"] == "throw" for e in f.blocks[b]["ev"]):
+            continue
+        for s_ in f.succs(b):
+            if (b, s_) not in infeas:
+                st.append((s_, path + (s_,)))
+    return None
+
+
+def operator(chk, P):
+    chk.rule("OPERATOR", "multiplyByPVA computes G*u as error(u) - error(0): for each of the three levels the per-constraint error routine writes the view OUT(start, m) of the "
+             "result, and on every path to the end of the iteration the view BIAS(start, m) with the SAME start and length is subtracted from it element by element; "
+             "start and m come from the error segment of that level, offset by the equation counts of the levels stacked before it")
+    fs = [f for f in P.all_fns() if f.name.split("::")[-1] == "multiplyByPVA" and "SimbodyMatterSubsystemRep" in f.name]
+    if not chk.shape(len(fs) == 1, "OPERATOR", "multiplyByPVA:found", "", "%d definitions" % len(fs)):
+        return
+    f = fs[0]
+    outp = f.d["params"][-1][0]
+    biasp = f.d["params"][-3][0]
+    decl = {}
+    for b, i, d in f.events(lambda q: q["k"] == "decl" and isinstance(q.get("init"), list)):
+        decl.setdefault(d["var"], []).append((b, i, d))
+
+    def view_of(v, at_ev):
+        """(base view variable, start sx, length sx) if v is declared as BASE(start, len) by the declaration reaching at_ev"""
+        ds = decl.get(v, [])
+        live = [d for b, i, d in ds if f.path_exists((b, i), lambda q: q is at_ev, lambda q: any(q is o[2] for o in ds if o[2] is not d), lift=0) is not None]
+        if len(live) != 1:
+            return None
+        x = live[0]["init"]
+        if x[0] == "opc" and x[1] == "()" and len(x) == 5 and var_of(x[2]):
+            return var_of(x[2]), x[3], x[4], live[0]
+        return None
+
+    def wraps(v, param):
+        """view variable v is built over the data of Vector parameter `param`"""
+        return any(bool(sx_find(d["init"], lambda y: y[0] == "var" and y[1] == param)) for _, _, d in decl.get(v, []))
+    seen = set()
+    loops = f.loops()
+    outer = [h for h, body in loops.items() if any(str(e.get("fn", "")).endswith("isConstraintDisabled") for bb in body for e in f.blocks[bb]["ev"])]
+    chk.shape(len(outer) >= 1, "OPERATOR", "multiplyByPVA:constraint-loop", f.loc, "loops testing isConstraintDisabled: %d" % len(outer))
+    for b, i, e in f.calls():
+        nm = str(e.get("fn", "")).split("::")[-1]
+        if nm not in OPERATOR or "ConstraintImpl" not in e["fn"]:
+            continue
+        seen.add(nm)
+        seg, before = OPERATOR[nm]
+        site = "%s:%d" % (f.file, e["line"])
+        ev = var_of(call_args(e)[-1])
+        vw = view_of(ev, e) if ev else None
+        if not chk.shape(vw is not None and wraps(vw[0], outp), "OPERATOR", nm + ":writes-a-view-of-the-result", site, "output argument %s" % sx_str(call_args(e)[-1])):
+            continue
+        _base, start, length, _d = vw
+        fl_start = _fields_through_locals(f, start, e)
+        fl_len = _fields_through_locals(f, length, e)
+        chk.judge(seg in fl_start and "offset" in fl_start and set(before) <= fl_start and not (fl_start & {s_ for s_ in ("holoErrSegment", "nonholoErrSegment", "accOnlyErrSegment") if s_ != seg}),
+                  "OPERATOR", nm + ":row-offset", site, "rows start at %s (depends on %s); expected %s.offset after %s" % (sx_str(start), sorted(fl_start), seg, before or "nothing"))
+        chk.judge(seg in fl_len and "length" in fl_len, "OPERATOR", nm + ":row-count", site, "row count %s (depends on %s); expected %s.length" % (sx_str(length), sorted(fl_len), seg))
+        # the subtraction
+        subs = []
+        for sb, si, se in f.events(lambda q: q["k"] == "assign" and q["op"] == "-=" and var_of(q["lhs"]) == ev and q["lhs"][0] != "var"):
+            bv = var_of(se.get("rhs"))
+            bw = view_of(bv, se) if bv else None
+            if not bw or not wraps(bw[0], biasp):
+                continue
+            same_idx = isinstance(se["lhs"], list) and isinstance(se["rhs"], list) and len(se["lhs"]) > 3 and len(se["rhs"]) > 3 and se["lhs"][3] == se["rhs"][3] and var_of(se["lhs"][3])
+            if f.path_exists((b, i), lambda q: q is se, lambda q: False, lift=0) is None:
+                continue
+            subs.append((sb, si, se, bw, same_idx))
+        chk.judge(len(subs) == 1, "OPERATOR", nm + ":bias-subtracted", site, "element-wise `%s[i] -= bias[i]` after the error routine: %d found" % (ev, len(subs)))
+        if len(subs) != 1:
+            continue
+        sb, si, se, bw, same_idx = subs[0]
+        chk.judge(bw[1] == start and bw[2] == length, "OPERATOR", nm + ":bias-view-same-rows", "%s:%d" % (f.file, se["line"]),
+                  "bias view (%s, %s) vs result view (%s, %s)" % (sx_str(bw[1]), sx_str(bw[2]), sx_str(start), sx_str(length)))
+        chk.judge(bool(same_idx), "OPERATOR", nm + ":same-element", "%s:%d" % (f.file, se["line"]), "%s -= %s" % (sx_str(se["lhs"]), sx_str(se["rhs"])))
+        inner = [h for h in f.loops_of(sb) if h not in outer]
+        okb = False
+        for h in inner:
+            t = f.blocks[h].get("term")
+            c = t.get("cond") if t else None
+            if isinstance(c, list) and c[0] in ("op", "opc") and c[1] == "<" and var_of(c[2]) == var_of(se["lhs"][3]) and c[3] == length:
+                i0 = [d for _, _, d in decl.get(var_of(c[2]), []) if d["init"] == ["lit", "0"]]
+                okb = bool(i0)
+                # every path from the error routine to the next constraint passes this loop
+                byp = _blocks_path(f, b, set(outer), {h})
+                chk.judge(byp is None, "OPERATOR", nm + ":bias-subtracted-on-every-path", "%s:%d" % (f.file, se["line"]), "the next constraint is reached without passing the subtraction loop", byp)
+        chk.judge(okb, "OPERATOR", nm + ":all-rows-of-the-segment", "%s:%d" % (f.file, se["line"]), "the subtraction runs for i = 0 .. %s-1" % sx_str(length))
+    chk.judge(seen == set(OPERATOR), "OPERATOR", "multiplyByPVA:three-levels", f.loc, "error routines called: %s" % sorted(seen))
+
+
 _C = "Simbody/src/Constraint.cpp"
 _R = "Simbody/src/SimbodyMatterSubsystemRep.cpp"
 _I = "Simbody/src/ConstraintImpl.h"
 MUTATIONS = [
+    dict(name="G*u keeps the bias of the holonomic rows", arm=True, file=_R,
+         old="            crep.calcPositionDotErrors(s, V_AB, qdot, pverr);\n            for (int i=0; i < mp; ++i)\n                pverr[i] -= bias[i];", new="            crep.calcPositionDotErrors(s, V_AB, qdot, pverr);",
+         expect="OPERATOR:calcPositionDotErrors:bias-subtracted"),
+    dict(name="bias of the nonholonomic rows removed only when there are several", file=_R,
+         old="            for (int i=0; i < mv; ++i)\n                vaerr[i] -= bias[i];", new="            if (mv > 1) for (int i=0; i < mv; ++i)\n                vaerr[i] -= bias[i];", expect="OPERATOR:calcVelocityDotErrors:bias-subtracted-on-every-path"),
+    dict(name="acceleration-only bias view starts at the nonholonomic offset", file=_R,
+         old="            const ArrayViewConst_<Real> bias = biasArray(start, ma);", new="            const ArrayViewConst_<Real> bias = biasArray(mHolo+accOnlySeg.offset, ma);", expect="OPERATOR:calcAccelerationErrors:bias-view-same-rows"),
+    dict(name="nonholonomic rows of G*u not offset by the holonomic count", file=_R,
+         old="            const int start = mHolo + nonholoSeg.offset;\n            const ArrayViewConst_<Real> bias  = biasArray(start, mv);\n            ArrayView_<Real>            vaerr = PVAuArray(start, mv);\n            crep.calcVelocityDotErrors(s, A_AB, udot, vaerr);",
+         new="            const int start = nonholoSeg.offset;\n            const ArrayViewConst_<Real> bias  = biasArray(start, mv);\n            ArrayView_<Real>            vaerr = PVAuArray(start, mv);\n            crep.calcVelocityDotErrors(s, A_AB, udot, vaerr);",
+         expect="OPERATOR:calcVelocityDotErrors:row-offset"),
     dict(name="nonholonomic matrix rows placed with the holonomic segment", arm=True, file=_R,
          old="        const Segment& nonholoSeg = cInfo.nonholoErrSegment; // after holo derivs, offset into uerr\n\n        V(", new="        const Segment& nonholoSeg = cInfo.holoErrSegment; // after holo derivs, offset into uerr\n\n        V(", expect="LEVEL:calcNonholonomicConstraintMatrixV:segment"),
     dict(name="PointInPlane reaction applied to the follower body twice", arm=True, file=_I,
